@@ -73,13 +73,22 @@ fn cond_mnemonic(c: Condition, rng: &mut Rng) -> &'static str
 /// `target`: absolute target for PC-relative instructions (ADR, B, BL, LDR literal), ignored otherwise
 pub fn render(i: &Instruction, target: i64, rng: &mut Rng, allow_forward: bool, uniq: &mut u32) -> Rendered
 {
+	render_biased(i, target, rng, allow_forward, uniq, 0).0
+}
+
+/// like `render`, but every immediate / target value v is written as v + bias (a value the instruction cannot
+/// hold, e.g. v + 2^32: the statement must then be diagnosed, never assembled as if it were v);
+/// returns the number of operands the bias was applied to
+pub fn render_biased(i: &Instruction, target: i64, rng: &mut Rng, allow_forward: bool, uniq: &mut u32, bias: i64) -> (Rendered, usize)
+{
 	use Instruction::*;
 	let style = rng.below(4);
 	let mut pre = String::new();
 	let mut post = String::new();
 	let r = |x: Register, rng: &mut Rng| reg_name(x, rng, style);
 	let sep = |rng: &mut Rng| match rng.below(3) { 0 => ", ", 1 => ",", _ => " , " }.to_string();
-	let mut imm = |v: i64, rng: &mut Rng| imm_text(v, rng, &mut pre, &mut post, allow_forward, uniq);
+	let biased = std::cell::Cell::new(0usize);
+	let mut imm = |v: i64, rng: &mut Rng| { if bias != 0 { biased.set(biased.get() + 1); } imm_text(v.wrapping_add(bias), rng, &mut pre, &mut post, allow_forward, uniq) };
 	let (mn, ops): (String, Vec<String>) = match *i
 	{
 		Adc{dst, rhs} => ("ADCS".into(), vec![r(dst, rng), r(rhs, rng)]),
@@ -143,7 +152,8 @@ pub fn render(i: &Instruction, target: i64, rng: &mut Rng, allow_forward: bool, 
 	let mut stmt = mn;
 	for (k, o) in ops.iter().enumerate() { if k == 0 { stmt.push(' '); } else { stmt.push_str(&sep(rng)); } stmt.push_str(o); }
 	stmt.push(';');
-	Rendered{pre, stmt, post}
+	let n = biased.get();
+	(Rendered{pre, stmt, post}, n)
 }
 
 fn reglist(bits: u16, rng: &mut Rng, style: u64) -> String
